@@ -257,8 +257,14 @@ def alt_case(rng):
     el = {'name': 'e', 'ty': 0, 'tyname': 'TA', 'alts': alts}
     insts = []
     good = {'xs:integer': '12', 'xs:boolean': 'true', 'xs:date': '2020-01-01'}
-    for kv in ('a', 'b', 'c', 'z'):
-        flags = [(t == "@k='%s'" % kv) for t, _ty in alts]
+    inherit = rng.random() < 0.5
+    combos = [(None, kv) for kv in ('a', 'b', 'c', 'z')]
+    if inherit:
+        # XSD 1.1 inheritable attribute on the parent: visible to the tests unless the element has its own attribute k
+        combos += [(dk, kv) for dk in ('a', 'b', 'c') for kv in (None, 'a', 'b', 'z')]
+    for dock, kv in combos:
+        eff = kv if kv is not None else dock
+        flags = [(t == "@k='%s'" % eff) for t, _ty in alts]
         chosen = next((ty for (t, ty), f in zip(alts, flags) if f), None)
         for content_ty in types:
             content = good[content_ty]
@@ -269,8 +275,8 @@ def alt_case(rng):
             idx = {None: 0, 'xs:integer': 1, 'xs:boolean': 2, 'xs:date': 3}
             insts.append({'kind': 'alt', 'alts': [(f, idx[ty]) for f, (_t, ty) in zip(flags, alts)],
                           'want': idx[chosen], 'want_valid': want,
-                          'xml': '<doc><e k="%s">%s</e></doc>' % (kv, content)})
-    return {'hier': h, 'elems': [el], 'docref': 'e', 'version': '1.1', 'instances': insts, 'alt_schema': True}
+                          'xml': '<doc%s><e%s>%s</e></doc>' % (' k="%s"' % dock if dock else '', ' k="%s"' % kv if kv is not None else '', content)})
+    return {'hier': h, 'elems': [el], 'docref': 'e', 'version': '1.1', 'instances': insts, 'alt_schema': True, 'inherit': inherit}
 
 
 def schema_xsd_alt(case):
@@ -282,7 +288,8 @@ def schema_xsd_alt(case):
     return ('<xs:schema xmlns:xs="http://www.w3.org/2001/XMLSchema">'
             '%s<xs:element name="e" type="xs:anyType">%s</xs:element>'
             '<xs:element name="doc"><xs:complexType><xs:sequence><xs:element ref="e" maxOccurs="unbounded"/>'
-            '</xs:sequence></xs:complexType></xs:element></xs:schema>' % (deriv, alts))
+            '</xs:sequence>%s</xs:complexType></xs:element></xs:schema>'
+            % (deriv, alts, '<xs:attribute name="k" type="xs:string" inheritable="true"/>' if case.get('inherit') else ''))
 
 
 _orig_schema_xsd = schema_xsd
